@@ -246,8 +246,10 @@ class PicklePersister(Persister):
         checkpoint = PersistedCheckpoint(process.pid, tag)
         persisted_pickle = PersistedPickle(checkpoint, bundle)
 
+        # serialise first: a process that cannot be pickled must not destroy the checkpoint stored before under this key
+        data = pickle.dumps(persisted_pickle)
         with open(self._pickle_filepath(process.pid, tag), 'w+b') as handle:
-            pickle.dump(persisted_pickle, handle)
+            handle.write(data)
 
     def load_checkpoint(self, pid: PID_TYPE, tag: Optional[str] = None) -> Bundle:
         """
